@@ -33,14 +33,43 @@ type exCase struct {
 	St  []rat   `json:"st"`
 }
 
-func nearly(got, want float64) bool {
+// nearly: within 1e-14 relative -- relative to the larger of the two values and of `scale`, the largest magnitude
+// among the case's inputs, initial states and exact results (a float64 difference of two such quantities carries
+// a rounding residual proportional to THEM, not to the exact difference, which may be 0)
+func nearly(got, want, scale float64) bool {
 	if got == want {
 		return true
 	}
 	if math.IsNaN(got) || math.IsNaN(want) {
 		return false
 	}
-	return math.Abs(got-want) <= 1e-14*math.Max(math.Abs(got), math.Abs(want))+1e-300
+	return math.Abs(got-want) <= 1e-14*math.Max(scale, math.Max(math.Abs(got), math.Abs(want)))+1e-300
+}
+
+func (c *exCase) scale() float64 {
+	m := 0.0
+	up := func(r rat) {
+		if v := math.Abs(r.f()); v > m && !math.IsInf(v, 0) {
+			m = v
+		}
+	}
+	for _, s := range c.Exact.Inputs {
+		for _, r := range s {
+			up(r)
+		}
+	}
+	for _, r := range c.Exact.States {
+		up(r)
+	}
+	for _, s := range c.Out {
+		for _, r := range s {
+			up(r)
+		}
+	}
+	for _, r := range c.St {
+		up(r)
+	}
+	return m
 }
 
 func exactEngine(args []string) error {
@@ -89,6 +118,7 @@ func exactEngine(args []string) error {
 		m := factory()
 		desc := m.Description()
 		T := len(e.Inputs[0])
+		scale := c.scale()
 		pArr := data.NewArray2DFloat64(len(e.Params), 1)
 		for i, p := range e.Params {
 			pArr.Set2(i, 0, p.f())
@@ -128,7 +158,7 @@ func exactEngine(args []string) error {
 		for k := range c.Out {
 			for t := 0; t < T; t++ {
 				got, want := oArr.Get3(0, k, t), c.Out[k][t].f()
-				if !nearly(got, want) {
+				if !nearly(got, want, scale) {
 					fail("output", fmt.Sprintf("output %s[%d] = %v, exact value %v/%v = %v", desc.Outputs[k], t, got, c.Out[k][t][0], c.Out[k][t][1], want))
 					k = len(c.Out) - 1
 					break
@@ -137,7 +167,7 @@ func exactEngine(args []string) error {
 		}
 		for k := range c.St {
 			got, want := sArr.Get2(0, k), c.St[k].f()
-			if !nearly(got, want) {
+			if !nearly(got, want, scale) {
 				fail("state", fmt.Sprintf("final state %d = %v, exact value %v", k, got, want))
 				break
 			}
